@@ -110,3 +110,91 @@ theorem foldl_max_ge (l : List Nat) : ∀ (a : Nat), (∀ x ∈ l, x ≤ l.foldl
     · exact h1 y hy
 
 end SharkVerif.Dataset
+
+namespace SharkVerif.Dataset
+open SharkVerif.CheckedNat
+variable {α ι κ : Type}
+
+/-- backward iteration over any container whose canonical positions dereference to `xs` -/
+theorem walkRev_gen (c : Container α) (xs : List α) (hsum : c.sizes.sum = xs.length) (hne : allPos c.sizes)
+    (hderef : ∀ p, p < xs.length → c.deref (canon c.sizes p) = xs[p]?) : ∀ k, k ≤ xs.length →
+    c.walkRev k (canon c.sizes k) = ((xs.take k).reverse).map some := by
+  intro k
+  induction k with
+  | zero => intro _; simp [Container.walkRev]
+  | succ k ih =>
+    intro hk
+    have hlt : k < xs.length := by omega
+    have hdec := decrement_canon c.sizes hne k (by rw [hsum]; exact hlt)
+    rw [Container.walkRev, hdec]
+    show c.deref (canon c.sizes k) :: c.walkRev k (canon c.sizes k) = _
+    rw [hderef k hlt, ih (by omega)]
+    simp [List.getElem?_eq_getElem hlt]
+    have hl : k < (List.map some xs).length := by simpa using hlt
+    rw [List.take_succ_eq_append_getElem hl]
+    simp
+
+/-- `element(i)` over any container whose canonical positions dereference to `xs` -/
+theorem elementAt_gen (c : Container α) (xs : List α) (hsum : c.sizes.sum = xs.length) (hne : allPos c.sizes)
+    (hderef : ∀ p, p < xs.length → c.deref (canon c.sizes p) = xs[p]?) (i : Nat) (hi : i < xs.length) :
+    c.elementAt i = xs[i]? := by
+  have hadv := advance_canon_zero c.sizes hne i (by omega)
+  unfold Container.elementAt
+  rw [hadv]
+  exact hderef i hi
+where
+  advance_canon_zero (sizes : List Nat) (h : allPos sizes) (i : Nat) (hi : i ≤ sizes.sum) :
+      Iter.begin.advance sizes i = some (canon sizes i) := by
+    unfold Iter.advance
+    simp only [Iter.begin]
+    have hi0 : ¬ ((i : Int) < 0) := by omega
+    by_cases h0 : i = 0
+    · subst h0
+      have hb := canon_zero sizes h
+      simp [hb, Iter.begin]
+    · have hne0 : ¬ ((i : Int) = 0) := by omega
+      have hf := fwd_locate sizes h 0 i hi
+      simp only [Nat.zero_add] at hf
+      simp [hi0, hne0, h0, hf, canon]
+
+/-- **labelled datasets**: for every well-formed labelled dataset with non-empty batches, `elements()`,
+`element(i)`, reverse iteration and batch-wise reading all yield the sequence of (input, label) pairs -/
+theorem labeled_access_paths (d : LabeledData ι κ) (hw : d.inputs.partitioning = d.labels.partitioning)
+    (hne : allPos d.inputs.partitioning) :
+    d.container.elementsFwd = (List.zip d.inputs.flat d.labels.flat).map some ∧
+    d.container.elementsIdx = (List.zip d.inputs.flat d.labels.flat).map some ∧
+    d.container.elementsRev.reverse = (List.zip d.inputs.flat d.labels.flat).map some := by
+  have hli : d.inputs.partitioning.sum = d.inputs.flat.length := d.inputs.sum_partitioning
+  have hll : d.labels.partitioning.sum = d.labels.flat.length := d.labels.sum_partitioning
+  have hlen : (List.zip d.inputs.flat d.labels.flat).length = d.inputs.flat.length := by
+    simp [List.length_zip]; rw [← hli, ← hll, hw]; omega
+  have hsum : d.container.sizes.sum = (List.zip d.inputs.flat d.labels.flat).length := by
+    simp [LabeledData.container, hli, hlen]
+  have hne' : allPos d.container.sizes := hne
+  have hder : ∀ p, p < (List.zip d.inputs.flat d.labels.flat).length →
+      d.container.deref (canon d.container.sizes p) = (List.zip d.inputs.flat d.labels.flat)[p]? := by
+    intro p hp
+    rw [hlen] at hp
+    have h1 := deref_canon d.inputs p hp
+    have hp2 : p < d.labels.flat.length := by rw [← hll, ← hw, hli]; exact hp
+    have h2 := deref_canon d.labels p hp2
+    simp only [Container.deref, Data.container, canon] at h1 h2
+    rw [← hw] at h2
+    simp only [Container.deref, LabeledData.container, LabeledData.get, canon, h1, h2, getElem?_zip_bind]
+    cases d.inputs.flat[p]? <;> cases d.labels.flat[p]? <;> rfl
+  refine ⟨labeled_elementsFwd d hw hne, ?_, ?_⟩
+  · generalize List.zip d.inputs.flat d.labels.flat = xs at hsum hder
+    simp only [Container.elementsIdx, hsum]
+    apply List.ext_getElem?
+    intro i
+    by_cases hi : i < xs.length
+    · simp only [List.getElem?_map, List.getElem?_range hi, Option.map_some]
+      rw [elementAt_gen d.container _ hsum hne' hder i hi, List.getElem?_eq_getElem hi]; rfl
+    · simp [hi]
+  · generalize List.zip d.inputs.flat d.labels.flat = xs at hsum hder
+    have := walkRev_gen d.container _ hsum hne' hder _ (Nat.le_refl _)
+    rw [← hsum, canon_end] at this
+    simp only [Container.elementsRev]
+    rw [this, hsum]; simp
+
+end SharkVerif.Dataset
